@@ -462,3 +462,24 @@ PROPERTIES["C04"] = {
                      "nano::program::solver_state_t::{update, residual}", "Eigen::LDLT / FullPivLU instantiations on symbolic matrices"]},
     ],
 }
+
+PROPERTIES["C03"] = {
+    "level": "other",
+    "level_text": "bounded symbolic verification: (a) bundle_t representation invariant - after any sequence (length <= 3) of serious steps, null steps, aggregation/deletion and multiplier updates on a symbolic convex function every stored cutting plane is a global lower bound with non-negative linearisation error and the multipliers lie on the simplex; econverged && sconverged => eps-optimality attempted (mostly `unknown` for nlsat, reported as inconclusive); (b) ellipsoid method on symbolic sharp convex functions: `converged` => f(x)-f* <= 10*eps, and a run reporting max_iters has exhausted its budget (bounded necessary condition of 'always reports converged')",
+    "level_note": SRE_NOTE,
+    "technique": SRE_TECH,
+    "explanation": "C03: bundle_t::{ctor, moveto, append, solve (size<=2 analytic branch), delete_inactive, delete_largest, store/append_aggregate, econverged, sconverged} and solver_ellipsoid_t::do_minimize on symbolic convex functions sum a_i|z_i-b_i| + q/2|z-c|^2.",
+    "assumptions": SRE_ASSUME + ["convex test functions with symbolic a_i in [0,8] (sharp: [1,8]), b, c in [-4,4], q in [0,4]", "bundle max_size 2 (multiplier update stays in the analytic 2-point branch; larger bundles need the interior-point QP on symbolic data)"],
+    "bounds": {"dims": "1..2", "bundle operations": "<= 3", "ellipsoid": "max_evals 10 (<= 4 cuts), R symbolic in [1e-20,10], eps in [1e-8,1e-3]"},
+    "outside": ["RQB/FPBA1/FPBA2 outer loops (csearch, proximity updates) and their `converged` status", "'ellipsoid always converges within 20000 evaluations' beyond the bounded necessary condition", "bundles with more than 2 points (inner QP)"],
+    "units": [
+        {"engine": "sre", "harness": "C03_bundle", "sources": ["C03_bundle.cpp"],
+         "quick": ["mode=bundle;d=1;ops=1;pat=1", "mode=bundle;d=1;ops=1;pat=0", "mode=bundle;d=1;ops=2;pat=2;q=0", "mode=bundle;d=1;ops=2;pat=1;q=0", "mode=bundle;d=2;ops=1;pat=1;q=0",
+                   "mode=ellipsoid;d=1", "mode=ellipsoid;d=1;evals=14", "mode=ellipsoid;d=1;zero=1", "mode=ellipsoid;d=1;evals=14;zero=1"],
+         "thorough": ["mode=ellipsoid;d=1;zero=1", "mode=ellipsoid;d=1;evals=14;zero=1", "mode=ellipsoid;d=2;zero=1"] + ["mode=bundle;d=1;ops=%d;pat=%d;q=%d" % (o, p, q) for o in (1, 2, 3) for p in range(1 << o) for q in (0, 1)] + ["mode=bundle;d=2;ops=%d;pat=%d;q=0" % (o, p) for o in (1, 2) for p in range(1 << o)] +
+                     ["mode=ellipsoid;d=1", "mode=ellipsoid;d=1;evals=14", "mode=ellipsoid;d=1;evals=20", "mode=ellipsoid;d=2"],
+         "budget": {"quick": {"deadline_s": 50, "max_paths": 5000, "query_s": 8}, "thorough": {"deadline_s": 600, "max_paths": 100000, "query_s": 30}},
+         "encoded": ["nano::bundle_t::{bundle_t, moveto, append, solve, delete_inactive, delete_largest, store_aggregate, append_aggregate, econverged, sconverged, smeared_e, smeared_s}",
+                     "nano::solver_ellipsoid_t::do_minimize", "nano::solver_t::done", "nano::solver_state_t::update_if_better", "nano::remove_if"]},
+    ],
+}
